@@ -24,8 +24,13 @@ def _run_pair(arg):
     rec = c05.execute(cfg, fault, second_kill=kill)
     v = c05.judge(cfg, fault, rec)
     out = []
+    kind = kill["proc"].split(":")[0]
     for sig, msg, rp in v:
-        sig = dict(sig, cause=sig["cause"] + f" (plus {kill['proc'].split(':')[0]} killed)")
+        if sig["monitor"] == "segments_left_behind" and kind == "shm":
+            # the segments of a killed shm server stay behind whatever else happens: same root cause as the single fault
+            sig = dict(sig, cause="shm process killed: shared-memory segments left behind")
+        else:
+            sig = dict(sig, cause=sig["cause"] + f" (plus {kind} killed)")
         rp = dict(rp, second_kill=kill)
         out.append((sig, msg, rp))
     return rec, out
